@@ -71,15 +71,21 @@ pub fn check(c: &Case) -> Outcome {
     let mut instr = Instr::new(&prob, &evs);
     instr.dir = d;
     instr.use_jac = c.analytic_jac;
+    instr.rec_ev = true;
     let sol = match solve(&instr, sp.x0, sp.xend, &prob.y0(), &opts(c, n, true, None)) {
         RunResult::Ok(s) => s,
         other => return Outcome::viol(format!("{}: plain run succeeded but the run with events gives {}", c.method.name(), other.describe())),
     };
+    // the accepted steps as the solver took them (with first_step the reported samples are not the step ends)
+    let (grid_t, grid_y) = crate::props::c09::step_grid(&instr.take_log(), d);
+    if grid_t.len() < 2 {
+        return Outcome::triv("no-step");
+    }
     let name = c.method.name();
     if sol.t_events.len() != evs.len() || sol.y_events.len() != evs.len() {
         return Outcome::viol(format!("{}: {} event functions but t_events/y_events have {}/{} entries", name, evs.len(), sol.t_events.len(), sol.y_events.len()));
     }
-    let grid = &sol.t;
+    let grid = &grid_t;
     let m = grid.len();
     let mut genuine = 0usize;
     let mut total = 0usize;
@@ -150,8 +156,8 @@ pub fn check(c: &Case) -> Outcome {
             let mut ok_dir = false;
             let mut strict = false;
             for &i in &cands {
-                let gl = e.g.g(grid[i], &sol.y[i]);
-                let gr = e.g.g(grid[i + 1], &sol.y[i + 1]);
+                let gl = e.g.g(grid[i], &grid_y[i]);
+                let gr = e.g.g(grid[i + 1], &grid_y[i + 1]);
                 let ok = match e.dir {
                     0 => (gl <= 0.0 && gr >= 0.0) || (gl >= 0.0 && gr <= 0.0),
                     1.. => gl <= 0.0 && gr >= 0.0,
@@ -168,7 +174,7 @@ pub fn check(c: &Case) -> Outcome {
                 let i = cands[0];
                 return Outcome::viol(format!(
                     "{}: event of function {} ({:?}) at t={:e} does not mark a sign change of the configured direction {} in the order of integration: g({:e})={:e}, g({:e})={:e}",
-                    name, k, e.g, t, e.dir, grid[i], e.g.g(grid[i], &sol.y[i]), grid[i + 1], e.g.g(grid[i + 1], &sol.y[i + 1])
+                    name, k, e.g, t, e.dir, grid[i], e.g.g(grid[i], &grid_y[i]), grid[i + 1], e.g.g(grid[i + 1], &grid_y[i + 1])
                 ));
             }
             if strict {
